@@ -21,6 +21,7 @@ CONSTANTS RowCounts,      \* the dataset: sequence of row-group sizes
           Reads,          \* subset of {"to_pandas", "iter", "head", "count", "filelike"}
           ColumnSets,     \* selections of columns (sequences), <<>> = all
           Sources,        \* how the root handle is opened: "path" | "fileobj" (caller's open file) | "bytesio"
+          IndexArgs,      \* the index= argument of a read: "default" (what the file records) | "false" (suppressed) | a column name
           MaxDepth
 
 None == 99
@@ -78,10 +79,13 @@ RECURSIVE Sum(_)
 Sum(s) == IF s = <<>> THEN 0 ELSE Head(s) + Sum(Tail(s))
 RowsOf(v) == Sum([p \in DOMAIN v |-> RowCounts[v[p]]])
 
-Read(kind, cols, h) ==
+InSeq(x, sq) == \E p \in DOMAIN sq : sq[p] = x
+Read(kind, cols, h, ix) ==
   /\ pc = "derive" /\ kind \in Reads
   /\ (kind = "head" => h \in 0..(RowsOf(view) + 1)) /\ (kind # "head" => h = 0)
-  /\ outcome' = [kind |-> kind, cols |-> cols, h |-> h, view |-> view, rows |-> RowsOf(view),
+  /\ (ix # "default" => kind \in {"to_pandas", "iter", "head"})
+  /\ (ix \notin {"default", "false"} => cols = <<>> \/ InSeq(ix, cols))     \* a named index column is among those read
+  /\ outcome' = [kind |-> kind, cols |-> cols, h |-> h, ix |-> ix, view |-> view, rows |-> RowsOf(view),
                  per_rg |-> [p \in DOMAIN view |-> RowCounts[view[p]]]]
   /\ prog' = Append(prog, [op |-> kind, i |-> h, j |-> 0, k |-> 0])
   /\ pc' = "done" /\ UNCHANGED view
@@ -90,7 +94,7 @@ Next == /\ \/ \E i \in SliceArgs, j \in SliceArgs, k \in Steps : Slice(i, j, k)
            \/ \E i \in SliceArgs \ {None} : Pick(i)
            \/ \E how \in {"pickle", "copy", "deepcopy"} : Clone(how)
            \/ Warm
-           \/ \E kind \in Reads, cols \in ColumnSets, h \in 0..(Sum(RowCounts) + 1) : Read(kind, cols, h)
+           \/ \E kind \in Reads, cols \in ColumnSets, h \in 0..(Sum(RowCounts) + 1), ix \in IndexArgs : Read(kind, cols, h, ix)
         /\ UNCHANGED src
 Spec == Init /\ [][Next]_vars
 
